@@ -14,6 +14,10 @@ from concurrent.futures import ThreadPoolExecutor
 import vlib
 
 LEVEL = "proof"
+# Open findings of the unmodified library (notes/exf.md, fixes/exf-*.diff).  The default run tolerates them (the model follows the
+# tree through behavioural facts, so T2 stays equal); VERIF_C12_OPEN=1 makes the oracle report them as violations and adds the
+# directed scripts.  When the integrator commits a repair the corresponding tolerance becomes dead code.
+OPEN = os.environ.get("VERIF_C12_OPEN") == "1"
 PS = os.sysconf("SC_PAGESIZE")
 OFFMAX = (1 << 63) - 1
 HUGE = [(1 << 63) - 1, (1 << 64) - 1]
@@ -21,6 +25,15 @@ HUGE = [(1 << 63) - 1, (1 << 64) - 1]
 
 def rup(x):
     return (x + PS - 1) // PS * PS
+
+
+def patbyte(seed, i):
+    return (seed * 131 + i * 31 + (i >> 8) * 7) % 251 + 1
+
+
+def pattern(n, seed):
+    """the bytes `raw <n> <seed>` / `fraw <n> <seed>` put into a file outside the library (same formula in the harness and the driver)"""
+    return bytes(patbyte(seed, i) for i in range(n))
 
 
 def stream(seed, n):
@@ -53,8 +66,13 @@ class Oracle:
         self.pol = ("def",)
         self.prev = 0
         self.lim = None  # RLIMIT_FSIZE in force (bytes) or None
-        self.maplim = False  # opt-in scripts: an address-space limit is in force (a window may fail to grow)
+        self.maplim = False  # an address-space limit is in force (a window may fail to grow)
         self.mapfailed = False  # ... and a call has answered ERRNO under it: windows may be unmapped from now on
+        self.exists = False  # the data file exists
+        self.ro = False  # opened read-only
+        self.locks_next = self.locks = False  # use_locks of the next / the current handle
+        self.held = 0  # read locks the caller holds (successful acquire_mmap without release_mmap)
+        self.acq_failed = False  # an acquire_mmap has failed on this handle (open finding: the lock is kept)
 
     def refused(self, n, cur=None):
         """the operating system does not let the file grow to n bytes"""
@@ -138,10 +156,38 @@ class Oracle:
         if op == "maplimit":
             self.maplim = int(t[1]) >= 0
             return {"rc": ["OK"], "raw": not self.opened}
+        if op == "locks":
+            self.locks_next = int(t[1]) != 0
+            return {"rc": ["OK"], "raw": not self.opened}
+        if op == "raw":
+            if self.opened:
+                return {"rc": ["BUSY"]}
+            self.kernel, self.kunk = bytearray(pattern(int(t[1]), int(t[2]))), bytearray(int(t[1]))
+            self.exists = True
+            return {"rc": ["OK"], "raw": True}
+        if op == "openro":
+            isz, mo = int(t[1]), int(t[2])
+            if self.opened:
+                self.do_close()
+            if not self.exists:
+                return {"rc": ["NOTEXISTS"], "raw": True}
+            if OPEN and 0 < mo < PS:
+                return {"rc": ["INVARGS"], "smallmax": mo}
+            size0 = len(self.kernel)
+            if size0 < isz or size0 % PS:  # the size would have to change: not on a read-only file
+                return {"rc": ["READONLY"]}
+            self.maxoff = mo // PS * PS if mo >= PS else 0
+            self.wins = []
+            self.data = bytearray(self.kernel); self.unk = bytearray(self.kunk); self.pd = bytearray(size0)
+            self.opened, self.ro, self.locks, self.held, self.acq_failed = True, True, self.locks_next, 0, False
+            return {"rc": ["OK"]}
         if op == "open":
             trunc, isz, mo = int(t[1]), int(t[2]), int(t[3])
             if self.opened:
                 self.do_close()
+            if OPEN and 0 < mo < PS:  # a maximum below one page cannot be honoured: the open must refuse it (file untouched)
+                return {"rc": ["INVARGS"], "smallmax": mo}
+            self.exists = True
             if trunc:
                 self.kernel, self.kunk = bytearray(), bytearray()
             self.maxoff = mo // PS * PS if mo >= PS else 0
@@ -155,15 +201,41 @@ class Oracle:
                 if n > size0 and self.maxoff and n > self.maxoff:
                     return {"rc": ["MAXOFF"]}
             elif size0 % PS:
-                n = rup(size0)
+                n = rup(size0)  # a length that is not a page multiple (a file made outside the library) is padded
+                if self.maxoff and n > self.maxoff:
+                    return {"rc": ["MAXOFF"]}
             if self.refused(n, size0):
                 return {"rc": ["IOERR"]}  # no handle; the file keeps what it had (nothing, if it was truncated)
             self.data = bytearray(self.kernel); self.unk = bytearray(self.kunk); self.pd = bytearray(size0)
-            self.opened = True
+            self.opened, self.ro, self.locks, self.held, self.acq_failed = True, False, self.locks_next, 0, False
             self.resize(n)
             return {"rc": ["OK"]}
         if not self.opened:
             return {"rc": ["NOTOPEN"], "raw": True}
+        if self.ro and op not in ("read", "state", "probe", "syncmm", "close"):
+            return {"rc": ["ROMODE"]}
+        if self.locks and self.needs_wlock(t):
+            if self.held > 0:  # documented: the caller still holds the read lock of a successful acquire_mmap
+                return {"rc": ["HANG"], "raw": True}
+            if self.acq_failed and not OPEN:  # open finding: the read lock of a FAILED acquire_mmap is kept
+                e = self.apply_unlocked(t)
+                e["rc"] = e["rc"] + ["HANG"]
+                return e
+        return self.apply_unlocked(t)
+
+    def needs_wlock(self, t):
+        op = t[0]
+        if op in ("truncate", "addmm", "rmmm", "remap", "close"):
+            return True
+        if op == "ensure":
+            return self.size < int(t[1])
+        if op == "write":
+            off, n = int(t[1]), (len(t[2]) // 2 if t[2] != "-" else 0)
+            return 0 <= off and off + n <= OFFMAX and not (self.maxoff and off + n > self.maxoff) and off + n > self.size
+        return False
+
+    def apply_unlocked(self, t):
+        op = t[0]
         if op == "write":
             off, d = int(t[1]), (bytes.fromhex(t[2]) if t[2] != "-" else b"")
             end = off + len(d)
@@ -192,7 +264,8 @@ class Oracle:
                 return {"rc": [rc]}
             fwd = noff > off and siz > 0 and noff < off + siz
             n = max(0, min(siz, self.size - off))
-            e = {"rc": ["OK", "OVERFLOW"] if fwd else ["OK"], "copy": (off, n, noff)}
+            # open finding: a forward-overlapping copy that goes through the file is refused (after the file has grown)
+            e = {"rc": ["OK", "OVERFLOW"] if fwd and not OPEN else ["OK"], "copy": (off, n, noff), "fwd": fwd}
             return e
         if op == "truncate":
             n = rup(int(t[1]))
@@ -235,6 +308,23 @@ class Oracle:
                 if w.off == off and w.len:
                     return {"rc": ["OK"], "probe": w.len}
             return {"rc": ["NOTMM"], "probe": 0}
+        if op == "syncmm":
+            off = int(t[1])
+            for w in self.wins:
+                if w.off == off and w.len:
+                    return {"rc": ["OK"], "win": True}
+            return {"rc": ["NOTMM"], "win": False}
+        if op == "acquire":
+            off = int(t[1])
+            for w in self.wins:
+                if w.off == off and w.len:
+                    self.held += 1
+                    return {"rc": ["OK"], "probe": w.len, "acq": True}
+            self.acq_failed = True
+            return {"rc": ["NOTMM"], "probe": 0}
+        if op == "release":
+            self.held = max(0, self.held - 1)
+            return {"rc": ["OK"]}
         if op in ("sync", "remap", "state"):
             return {"rc": ["OK"]}
         if op == "close":
@@ -246,8 +336,9 @@ class Oracle:
         for w in self.wins:
             self.drop_private(w)
         self.wins = []
-        self.kernel = bytearray(self.data)
-        self.kunk = bytearray(self.unk)
+        if not self.ro:
+            self.kernel = bytearray(self.data)
+            self.kunk = bytearray(self.unk)
         self.opened = False
 
     def finish_copy(self, e, rc):
@@ -272,6 +363,15 @@ def judge(o, t, e, line):
         return "the call crashed (signal inside the library)"
     if len(f) > 1 and f[1] == "SIGBUS":
         return "SIGBUS: the call read a mapped page that lies beyond the end of the file (a window is longer than the file)"
+    if len(f) > 1 and f[1] == "HANG":
+        if "HANG" in e["rc"]:
+            o.opened = False  # the handle is abandoned
+            return None
+        return ("the call never returned: it waits for a lock the caller itself is made to hold (a failed acquire_mmap kept "
+                "the read lock)" if o.acq_failed else "the call never returned")
+    if e.get("smallmax") and f[1] == "OK":
+        return ("maxoff=%d accepted: a configured maximum below one page is silently dropped (the file may grow without limit)"
+                % e["smallmax"])
     if e.get("raw"):
         return None if f[1] == e["rc"][0] else "expected %s" % e["rc"][0]
     if f[1] not in e["rc"]:
@@ -324,8 +424,18 @@ def run_oracle(script, out):
             e = {"rc": ["ERRNO"]}
             if t[0] == "write":
                 e["sp"] = 0
-        if o.mapfailed and t[0] == "probe" and out[i].split()[1:3] == ["NOTMM", "0"]:
+        if o.mapfailed and t[0] in ("probe", "acquire") and out[i].split()[1:3] == ["NOTMM", "0"]:
+            if t[0] == "acquire" and e.get("acq"):
+                o.held -= 1
+                o.acq_failed = True
             e = {"rc": ["NOTMM"], "probe": 0}  # a window that could not be mapped again is served through the file
+        if o.mapfailed and t[0] == "syncmm" and out[i].split()[1:2] == ["NOTMM"]:
+            e = {"rc": ["NOTMM"]}
+        if snap is None and o.maplim and t[0] in ("addmm", "remap") and out[i].split()[1:2] == ["ERRNO"]:
+            if t[0] == "addmm" and e["rc"] == ["OK"]:
+                o.wins.pop()  # the window was not registered
+            o.mapfailed = True
+            e = {"rc": ["ERRNO"]}
         why = judge(o, t, e, out[i])
         if why:
             return i, why
@@ -398,6 +508,10 @@ def gen_script(rng, run):
         run.dist("policy:" + pol[0]); run.dist("maxoff:" + ("none" if mo < PS else "set"))
         return "open %d %d %d %s" % (trunc, isz, mo, " ".join(pol))
 
+    use_locks = rng.chance(1, 6)
+    run.dist("locks:" + ("on" if use_locks else "off"))
+    if use_locks:
+        emit("locks 1")
     emit(open_line(1))
     allow_priv = rng.chance(1, 3)
     layout = rng.weighted([("none", 2), ("whole", 2), ("first", 2), ("partial", 3), ("several", 4)])
@@ -495,7 +609,10 @@ def gen_script(rng, run):
             if left == 0:
                 emit("limit -1")
         k = rng.weighted([("write", 30), ("read", 26), ("copy", 10), ("truncate", 7), ("ensure", 5), ("addmm", 5),
-                          ("rmmm", 3), ("probe", 3), ("sync", 1), ("remap", 1), ("state", 1), ("reopen", 3), ("edge", 2)])
+                          ("rmmm", 3), ("probe", 3), ("sync", 1), ("remap", 1), ("state", 1), ("reopen", 3), ("edge", 2),
+                          ("syncmm", 2), ("acquire", 3), ("rawfile", 2), ("readonly", 1)])
+        if k in ("rawfile", "readonly") and o.lim is not None:
+            k = "state"  # the harness itself could not write the foreign file under RLIMIT_FSIZE
         run.dist("op:" + k)
         if k == "write":
             off = pick_off(rng, o, lim)
@@ -524,6 +641,38 @@ def gen_script(rng, run):
             emit("probe %d" % (rng.choice(o.wins).off if o.wins and rng.chance(4, 5) else rng.range(0, 6) * PS))
         elif k in ("sync", "remap", "state"):
             emit(k)
+        elif k == "syncmm":
+            emit("syncmm %d" % (rng.choice(o.wins).off if o.wins and rng.chance(4, 5) else rng.range(0, 6) * PS))
+        elif k == "acquire":
+            # under locks a failed acquire is the open finding (the lock is kept): generated only when it is to be reported
+            mapped = [w for w in o.wins if w.len]
+            if mapped and (rng.chance(4, 5) or (o.locks and not OPEN)):
+                e = emit("acquire %d" % rng.choice(mapped).off)
+                if rng.chance(1, 4):
+                    emit("read %d %d" % (pick_off(rng, o, max(0, o.size - 1)), rng.choice([1, 7, PS])))  # reading under the read lock
+                emit("release")
+            elif not (o.locks and not OPEN):
+                emit("acquire %d" % (rng.range(0, 6) * PS + rng.choice([0, 0, 1])))
+        elif k == "rawfile":
+            # a file of arbitrary length made outside the library, opened without OTRUNC: the open pads it to a page multiple
+            emit("close")
+            emit("raw %d %d" % (rng.choice([0, 1, 100, PS - 1, PS, PS + 1, 2 * PS + 17, 3 * PS, 5 * PS - 1, rng.range(1, 6 * PS)]), rng.range(0, 250)))
+            emit(open_line(0))
+            if o.opened:
+                emit("read %d %d" % (max(0, o.size - PS - 3), PS + 8))
+                emit("read 0 %d" % min(o.size, 3 * PS))
+        elif k == "readonly":
+            # the same file opened read-only: allowed only when nothing has to change
+            emit("close")
+            if rng.chance(1, 2):
+                emit("raw %d %d" % (rng.choice([PS, 2 * PS, PS + 1, 100, 3 * PS - 1, 0]), rng.range(0, 250)))
+            emit("openro %d %d def" % (rng.choice([0, 0, 0, 1, len(o.kernel), len(o.kernel) + 1, PS]), rng.choice([0, 0, 16 * PS])))
+            if o.opened:
+                emit("read 0 %d" % min(o.size, 3 * PS))
+                emit("read %d %d" % (max(0, o.size - 5), 10))
+                emit(rng.choice(["state", "probe 0", "write 0 aa", "truncate 0", "syncmm 0"]))
+                emit("close")
+            emit(open_line(0))
         elif k == "reopen":
             emit("close")
             emit(open_line(0))
@@ -545,6 +694,10 @@ def gen_script(rng, run):
         emit("close")
         emit("open 0 0 0 def")
         emit("read 0 %d" % min(len(o.kernel), 5 * PS))
+    if use_locks:
+        if o.opened:
+            emit("close")
+        emit("locks 0")
     return lines
 
 
@@ -640,7 +793,9 @@ def refusal_script(rng, run, pol, layout, kind):
 # implementation only and judged by the oracle: a call that answers an error must leave size, file and bytes unchanged,
 # and nothing may fault afterwards.
 def mapfail_scripts():
-    big, slack = 64 << 20, 4 << 20
+    # the model keeps the file as a list of bytes: the growth is kept at 512 KiB, the slack at 64 KiB (16 pages; the windows of the
+    # layouts below hold 2-3 pages, the harness allocates nothing of that size while the limit is in force)
+    big, slack = 128 * PS, 16 * PS
     layouts = [["addmm 0 %d 0" % HUGE[1]], ["addmm 0 %d 0" % PS, "addmm %d %d 0" % (PS, HUGE[0])],
                ["addmm %d %d 2" % (PS, HUGE[0])]]
     grows = ["ensure %d" % big, "truncate %d" % big, "write %d aa" % (big - 1), "copy 0 5 %d" % (big - 5)]
@@ -650,9 +805,201 @@ def mapfail_scripts():
         for g in grows:
             out.append(["open 1 %d 0 def" % (2 * PS)] + lay +
                        ["write 0 68656c6c6f", "write %d 0102" % (2 * PS - 2), "maplimit %d" % slack, g, "state"] + probes +
-                       ["read 0 5", "read %d 4" % (2 * PS - 3), "write 3 ff", "read 0 5", "maplimit -1", "remap"] + probes +
+                       ["read 0 5", "read %d 4" % (2 * PS - 3), "write 3 ff", "read 0 5"] +
+                       ["syncmm %s" % a.split()[1] for a in lay] + ["acquire %s" % lay[0].split()[1], "release", "maplimit -1", "remap"] + probes +
                        ["ensure %d" % (3 * PS), "read 0 5", "read %d 4" % (2 * PS - 3), "close", "open 0 0 0 def", "read 0 5"])
     return out
+
+
+# ------------------------------------------------------------------------------------------------
+# the plain file underneath (src/fs/iwfile.c): option normalisation, open status, what the next open sees, counts at EOF.
+# Oracle written from iwfile.h: "IWFS_OREAD is always set", "IWFS_OTRUNC: truncate, implies IWFS_OWRITE|IWFS_OCREATE"-style rules.
+O_READ, O_WRITE, O_CREATE, O_TRUNC, O_UNLINK, O_TMP = 1, 2, 4, 8, 16, 32
+L_R, L_W, L_NB = 1, 2, 4
+
+
+def fnorm(om, lk):
+    om = om or O_CREATE
+    om |= O_READ
+    if om & O_TMP:
+        om |= O_TRUNC
+        lk |= L_W
+    if om & O_TRUNC:
+        om |= O_WRITE | O_CREATE
+    if om & O_UNLINK:
+        om |= O_WRITE
+    if om & O_CREATE:
+        om |= O_WRITE
+    if not om & O_WRITE:
+        lk &= ~L_W
+    return om, lk
+
+
+class FOracle:
+    def __init__(self):
+        self.k = None  # bytes of <path>.raw or None
+        self.h = None  # open handle: dict(om, lk, os, data, tmp)
+
+    def size(self):
+        return len(self.h["data"]) if self.h else (-1 if self.k is None else len(self.k))
+
+    def rawsize(self):
+        """size of <path>.raw itself (an IWFS_OTMP handle is another file)"""
+        if self.h and not self.h["tmp"]:
+            return len(self.h["data"])
+        return -1 if self.k is None else len(self.k)
+
+    def close(self):
+        if self.h and not self.h["tmp"]:
+            self.k = None if self.h["om"] & O_UNLINK else bytes(self.h["data"])
+        self.h = None
+
+    def apply(self, t):
+        """returns the expected answer line without the trailing fstat, and the expected fstat"""
+        op = t[0]
+        if op == "fraw":
+            if self.h:
+                return "fraw ERR", self.rawsize()
+            self.k = pattern(int(t[1]), int(t[2]))
+            return "fraw OK", self.size()
+        if op == "frm":
+            if self.h or self.k is None:
+                return "frm ERR", self.rawsize()
+            self.k = None
+            return "frm OK", -1
+        if op == "fopen":
+            self.close()
+            om, lk = fnorm(int(t[1]), int(t[2]))
+            tmp = bool(om & O_TMP)
+            k = None if tmp else self.k
+            if k is None and not (om & O_WRITE and om & O_CREATE):
+                return "fopen NOTEXISTS open=0 os=0 om=0 lk=0 fm=0 tmp=0", self.size()
+            ost = 1 if (k is None or om & O_TRUNC) else 2
+            data = bytearray() if (k is None or om & O_TRUNC) else bytearray(k)
+            if not tmp:
+                self.k = bytes(data)
+            self.h = {"om": om, "lk": lk, "os": ost, "data": data, "tmp": tmp}
+            return "fopen OK open=1 os=%d om=%d lk=%d fm=666 tmp=%d" % (ost, om, lk, 1 if tmp else 0), self.size()
+        if not self.h:
+            return "%s NOTOPEN" % op, self.size()
+        h = self.h
+        if op == "fwrite":
+            off, d = int(t[1]), (bytes.fromhex(t[2]) if t[2] != "-" else b"")
+            if not h["om"] & O_WRITE:
+                return "fwrite READONLY x", self.size()
+            if d:
+                if len(h["data"]) < off:
+                    h["data"] += bytes(off - len(h["data"]))
+                h["data"][off:off + len(d)] = d
+            return "fwrite OK %d" % len(d), self.size()
+        if op == "fread":
+            off, n = int(t[1]), int(t[2])
+            b = bytes(h["data"][off:off + n])
+            return "fread OK %d %s" % (len(b), b.hex() if b else "-"), self.size()
+        if op == "fcopy":
+            off, siz, noff = int(t[1]), int(t[2]), int(t[3])
+            if not h["om"] & O_WRITE:
+                return "fcopy READONLY", self.size()
+            if siz > 0 and off < noff < off + siz:
+                return None, None  # documented todo of iwp_copy_bytes: refused or carried out - judged by judge_f
+            b = bytes(h["data"][off:off + siz])
+            if b:
+                if len(h["data"]) < noff:
+                    h["data"] += bytes(noff - len(h["data"]))
+                h["data"][noff:noff + len(b)] = b
+            return "fcopy OK", self.size()
+        if op == "fsync":
+            return "fsync OK", self.size()
+        if op == "fstate":
+            return "fstate OK open=1 os=%d om=%d lk=%d" % (h["os"], h["om"], h["lk"]), self.size()
+        if op == "fclose":
+            left = -1 if h["om"] & O_UNLINK else self.size()
+            self.close()
+            return "fclose OK", left
+        return "%s BADOP" % op, None
+
+
+def run_foracle(script, out):
+    o = FOracle()
+    for i, l in enumerate(script):
+        t = l.split()
+        if i >= len(out):
+            return i, "no answer (harness died)"
+        if t[0] == "fcopy" and o.h and o.h["om"] & O_WRITE and int(t[2]) > 0 and int(t[1]) < int(t[3]) < int(t[1]) + int(t[2]):
+            got = out[i].split()
+            off, siz, noff = int(t[1]), int(t[2]), int(t[3])
+            if got[1:2] == ["OK"]:
+                b = bytes(o.h["data"][off:off + siz])
+                if b:
+                    if len(o.h["data"]) < noff:
+                        o.h["data"] += bytes(noff - len(o.h["data"]))
+                    o.h["data"][noff:noff + len(b)] = b
+            elif got[1:2] != ["OVERFLOW"] or OPEN:
+                return i, "forward-overlapping copy through the file answered %s (iwp_copy_bytes refuses it: open finding)" % got[1:2]
+            exp, st = " ".join(got[:2]), o.size()
+        else:
+            exp, st = o.apply(t)
+        want = exp if st is None else "%s fstat=%d" % (exp, st)
+        if out[i].strip() != want:
+            return i, "plain file: answered `%s`, iwfile.h says `%s`" % (out[i].strip()[:120], want[:120])
+    return None
+
+
+def gen_fscript(rng, run):
+    """open modes x lock modes x existing/missing/foreign file, reads and writes around the end of the file, copies"""
+    o = FOracle()
+    lines = []
+
+    def emit(l):
+        lines.append(l)
+        t = l.split()
+        if t[0] == "fcopy" and o.h and o.h["om"] & O_WRITE and int(t[2]) > 0 and int(t[1]) < int(t[3]) < int(t[1]) + int(t[2]):
+            return  # outcome open (documented todo); the generator stops relying on the content
+        o.apply(t)
+
+    for _ in range(rng.range(2, 5)):
+        pre = rng.weighted([("keep", 4), ("remove", 2), ("foreign", 2)])
+        if pre == "remove":
+            emit("frm")
+        elif pre == "foreign":
+            emit("fraw %d %d" % (rng.choice([0, 1, 17, PS - 1, PS, PS + 5, 2 * PS + 1]), rng.range(0, 250)))
+        om = rng.choice([0, 1, 2, 3, 4, 6, 8, 9, 12, 16, 17, 18, 24, 32, 33, 48, rng.range(0, 63)])
+        lk = rng.choice([0, 0, 0, 1, 2, 3, 4, 5, 6, 7])
+        run.dist("fopen:omode=%d" % om)
+        emit("fopen %d %d" % (om, lk))
+        emit("fstate")
+        if not o.h:
+            continue
+        fwd_seen = False
+        for _ in range(rng.range(2, 9)):
+            sz = len(o.h["data"])
+            at = max(0, rng.choice([0, sz, sz, sz - 1, sz + 1, sz - 3, sz + PS, PS, PS - 1, 4096, 4097]) + rng.choice([0, 0, 0, -1, 1]))
+            k = rng.weighted([("fwrite", 5), ("fread", 6), ("fcopy", 3), ("fsync", 1), ("fstate", 1)])
+            run.dist("fop:" + k)
+            if k == "fwrite":
+                n = rng.choice([0, 1, 2, 5, 100, PS, PS + 1])
+                emit("fwrite %d %s" % (at, stream(rng.u64(), n).hex() if n else "-"))
+            elif k == "fread":
+                emit("fread %d %d" % (at, rng.choice([0, 1, 3, 10, PS, 2 * PS + 1, sz + 5])))
+            elif k == "fcopy" and not fwd_seen:
+                # the source lies inside the file: a copy whose source reaches beyond the end while its destination extends the
+                # file feeds on the bytes it has just written (chunk loop of iwp_copy_bytes) - left to the model (T2), not judged
+                n = rng.choice([0, 1, 5, 100, PS, PS + 7, 4096 + 4096 + 1])
+                at = min(at, sz)
+                n = min(n, sz - at)
+                noff = max(0, rng.choice([at - n, at - n - 1, at + n, at + n + 1, at - 1, 0, sz, sz + 10] + ([at + 1, at + n - 1] if rng.chance(1, 4) else [])))
+                if n > 0 and at < noff < at + n:
+                    fwd_seen = True
+                emit("fcopy %d %d %d" % (at, n, noff))
+                if fwd_seen:
+                    break
+            else:
+                emit(k if k in ("fsync", "fstate") else "fstate")
+        if rng.chance(4, 5):
+            emit("fclose")
+    emit("fclose") if o.h else None
+    emit("frm") if o.k is not None else None
+    return lines
 
 
 def leak_check(run, impl, tmp):
@@ -670,18 +1017,39 @@ def leak_check(run, impl, tmp):
                       "ten failed opens left descriptors behind: %s before, %s after" % (out[0], out[-1]))
 
 
+def flock_leak_check(run, impl, tmp):
+    """open finding (fixes/exf-file-open-flock-leak.diff): iwfs_file_open does not close the descriptor it opened when iwp_flock
+    fails.  Reported only with VERIF_C12_OPEN=1."""
+    s = ["fhold 1", "nfd"] + ["fopen 2 6"] * 5 + ["nfd", "fhold 0", "fopen 2 6", "fclose", "frm"]
+    rc, out, err = vlib.run_lines([impl, tmp], "\n".join(s) + "\n", timeout=120)
+    run.dist("flock-fail-leak-script")
+    out = [l for l in out if l.strip()]
+    if len(out) < len(s) or any(l.split()[1:2] != ["IOERR"] for l in out[2:7]) or out[9].split()[1:2] != ["OK"]:
+        run.broken.append("C12 flock script: unexpected answers (%r)" % (out[:10],))
+    elif out[1] != out[7]:
+        run.violation({"script": s, "impl": [out[1], out[7]], "kind": "flock-fail-leak"},
+                      "five opens refused by flock left descriptors behind: %s before, %s after" % (out[1], out[7]))
+
+
+# directed scripts for the open findings (only with VERIF_C12_OPEN=1)
+def open_finding_scripts():
+    return [
+        # a maximum below one page
+        ["open 1 0 100 def", "write 0 %s" % ("07" * 300), "state", "write %d 01" % (10 * PS), "close"],
+        # a forward-overlapping copy through the file: refused, but only after the file has grown; through a window it is carried out
+        ["open 1 %d 0 def" % (3 * PS), "write 0 0102030405", "copy 0 %d %d" % (3 * PS, 2 * PS), "state", "read %d 5" % (2 * PS),
+         "addmm 0 %d 0" % (64 * PS), "copy 0 %d %d" % (3 * PS, 2 * PS), "read %d 5" % (2 * PS), "close"],
+        # acquire_mmap of an offset without a window keeps the read lock
+        ["locks 1", "open 1 %d 0 def" % PS, "acquire %d" % (2 * PS), "write %d aa" % (2 * PS), "open 1 %d 0 def" % PS, "acquire 0",
+         "truncate %d" % (2 * PS), "locks 0"],
+    ]
+
+
 def mapfail_check(run, impl):
-    scripts = mapfail_scripts()
     tmp = "/tmp/exf-mapfail-%d.dat" % os.getpid()
     leak_check(run, impl, tmp)
-    for s in scripts:
-        rc, out, err = vlib.run_lines([impl, tmp], "\n".join(s) + "\n", timeout=300)
-        run.dist("mapfail-script")
-        v = run_oracle(s, out)
-        if v and len(run.violations) < 5:
-            j, why = v
-            run.violation({"script": s[:j + 1], "failing_op": s[j][:200], "impl": out[j] if j < len(out) else None,
-                           "kind": "mmap-refusal"}, "op %d `%s`: %s" % (j, s[j][:80], why))
+    if OPEN:
+        flock_leak_check(run, impl, tmp)
 
 
 # ------------------------------------------------------------------------------------------------
@@ -747,8 +1115,17 @@ def check(run):
                     scripts.append(refusal_script(rng.fork(), run, pol, layout, kind))
     for _ in range(N):
         scripts.append(gen_script(rng.fork(), run))
-    if os.environ.get("VERIF_C12_MAPFAIL") != "0":
-        mapfail_check(run, impl)
+    # mmap refusal (RLIMIT_AS): through the model as well since the deepening round (os_map oracle)
+    for s_ in mapfail_scripts():
+        run.dist("mapfail-script")
+        scripts.append(s_)
+    if OPEN:
+        scripts += open_finding_scripts()
+    # the plain file underneath: scripts of f-commands, judged by their own oracle
+    nfs = len(scripts)
+    for _ in range(N // 4):
+        scripts.append(gen_fscript(rng.fork(), run))
+    mapfail_check(run, impl)
     res_i, res_m, errs = run_scripts(impl, model, scripts, "c12")
     for e in errs[:2]:
         run.broken.append("T2 harness: " + e)
@@ -764,13 +1141,13 @@ def check(run):
                 first = (i, j, s[j][:80], oi[j][:120] if j < len(oi) else None, om[j][:120] if j < len(om) else None)
                 if os.environ.get("VERIF_DEBUG"):
                     json.dump({"script": s, "impl": oi, "model": om}, open("/tmp/exf-mismatch.json", "w"), indent=1)
-        v = run_oracle(s, oi)
+        v = run_oracle(s, oi) if i < nfs else run_foracle(s, oi)
         run.case("\n".join(s), nontrivial=len(s) > 3,
                  sample=({"script_head": s[:6], "impl_head": oi[:6], "ops": len(s)} if i % max(1, len(scripts) // 5) == 0 else None))
         if v and len(run.violations) < 5:
             j, why = v
             run.violation({"script": s[:j + 1], "failing_op": s[j][:200], "impl": oi[j] if j < len(oi) else None,
-                           "kind": "corpus" if i < ncorp else "generated"},
+                           "kind": "corpus" if i < ncorp else "generated" if i < nfs else "plainfile"},
                           "op %d `%s`: %s" % (j, s[j][:80], why))
     run.cov["traces_validated_against_impl"] = len(scripts) - nmis
     run.cov["op_lines"] = nlines
@@ -804,7 +1181,7 @@ def replay(run, path):
     rc, out, err = vlib.run_lines([impl, tmp], "\n".join(r["script"]) + "\n")
     for l, o in zip(r["script"], out):
         print("%-60s -> %s" % (l[:60], o[:100]))
-    v = run_oracle(r["script"], out)
+    v = (run_foracle if r.get("kind") == "plainfile" else run_oracle)(r["script"], out)
     print("note:", r.get("note"))
     if v:
         print("still failing: op %d: %s" % v)
